@@ -93,3 +93,180 @@ package main
 //@     ==> SameNode(eps[i].Endpoints[j].NodeName, eps[i2].Endpoints[j2].NodeName)
 //@ lemma C10.localImpliesAll: forall eps []discovery.EndpointSlice, me string ::
 //@     SingleNodePerAddr(eps) && HealthyOn(eps, true, me) ==> HealthyOn(eps, false, "")
+
+// ---- C04 / C12: layer-2 election ----
+
+//@ pred SelectsL2(pool *config.Pool, node string) :=
+//@     exists i int :: 0 <= i && i < len(pool.L2Advertisements) && pool.L2Advertisements[i].Nodes[node]
+
+//@ func poolMatchesNodeL2
+//@   requires PoolWF(pool)
+//@   ensures result == SelectsL2(pool, node)
+//@   modifies nothing
+//@   loop 1 invariant forall j int :: 0 <= j && j < iter ==> !pool.L2Advertisements[j].Nodes[node]
+
+// Active: the Service has at least one ready or serving endpoint entry.
+//@ pred Active(eps []discovery.EndpointSlice) := exists i int, j int ::
+//@     0 <= i && i < len(eps) && 0 <= j && j < len(eps[i].Endpoints) && epslices.Serv(eps[i].Endpoints[j].Conditions)
+
+//@ func activeEndpointExists
+//@   ensures result == Active(eps)
+//@   modifies nothing
+//@   loop 1 invariant forall i int, j int :: 0 <= i && i < iter && 0 <= j && j < len(eps[i].Endpoints) ==> !epslices.Serv(eps[i].Endpoints[j].Conditions)
+//@   loop 2 invariant 0 <= idx(1) && idx(1) < len(eps)
+//@   loop 2 invariant forall i int, j int :: 0 <= i && i < idx(1) && 0 <= j && j < len(eps[i].Endpoints) ==> !epslices.Serv(eps[i].Endpoints[j].Conditions)
+//@   loop 2 invariant forall j int :: 0 <= j && j < iter ==> !epslices.Serv(eps[idx(1)].Endpoints[j].Conditions)
+
+// The speaker-membership view (assumed to be the same value on every speaker: "cluster view shared by the speakers").
+//@ func (SpeakerList).UsableSpeakers
+//@   pure
+
+// NodeOK: the per-node part of eligibility.
+//@ pred NodeOK(c *layer2Controller, pool *config.Pool, nodes map[string]*v1.Node, n string) :=
+//@     !k8snodes.NetUnavail(nodes[n]) && (c.ignoreExcludeLB || !k8snodes.Excluded(nodes[n])) && SelectsL2(pool, n)
+// HasSpeaker: a live speaker on n; every known node when membership tracking is disabled.
+//@ pred HasSpeaker(c *layer2Controller, nodes map[string]*v1.Node, n string) :=
+//@     ite(c.sList.UsableSpeakers().Disabled, n in nodes, n in c.sList.UsableSpeakers().Nodes)
+// Eligible: E(V) of the design.
+//@ pred Eligible(c *layer2Controller, pool *config.Pool, nodes map[string]*v1.Node, n string) :=
+//@     HasSpeaker(c, nodes, n) && NodeOK(c, pool, nodes, n)
+
+//@ func (*layer2Controller).speakersForPool$1
+//@   requires jump$1 == 0 && c != nil && PoolWF(pool) && res != nil
+//@   ensures result && jump$1 == 0
+//@   ensures forall n string :: (n in res) == (old(n in res) || (n == arg0 && old(NodeOK(c, pool, nodes, arg0))))
+//@   ensures forall n string :: n in res ==> res[n] == ((n == arg0 && old(NodeOK(c, pool, nodes, arg0))) || old(res[n]))
+//@   modifies jump$1, map(res), fresh []interface{}
+
+//@ func (*layer2Controller).speakersForPool
+//@   requires c != nil && PoolWF(pool)
+//@   ensures result != nil && fresh(result)
+//@   ensures forall n string :: (n in result) == old(Eligible(c, pool, nodes, n))
+//@   ensures forall n string :: n in result ==> result[n]
+//@   modifies fresh map[string]bool, fresh []interface{}, fresh *int
+//@   loop 1 invariant res != nil && fresh(res) && jump$1 == 0 && c == old(c) && pool == old(pool) && nodes == old(nodes)
+//@   loop 1 invariant forall n string :: (n in res) == (n in visited && old(NodeOK(c, pool, nodes, n)))
+//@   loop 1 invariant forall n string :: n in res ==> res[n]
+
+//@ pred NoDup(s []string) := forall i int, j int :: 0 <= i && i < j && j < len(s) ==> s[i] != s[j]
+
+//@ func nodesWithActiveSpeakers
+//@   ensures forall n string :: (n in result) == old(n in speakers)
+//@   ensures NoDup(result)
+//@   ensures result == nil || fresh(result)
+//@   modifies fresh []string
+//@   loop 1 invariant forall n string :: (n in ret) == (n in visited)
+//@   loop 1 invariant NoDup(ret) && (ret == nil || fresh(ret))
+//@   loop 1 invariant forall n string :: n in visited ==> n in speakers
+
+// HostsReady: node n hosts a ready or serving endpoint entry of the Service.
+//@ pred HostsReady(eps []discovery.EndpointSlice, n string) := exists i int, j int ::
+//@     0 <= i && i < len(eps) && 0 <= j && j < len(eps[i].Endpoints) && epslices.Serv(eps[i].Endpoints[j].Conditions)
+//@     && eps[i].Endpoints[j].NodeName != nil && *eps[i].Endpoints[j].NodeName == n
+// HostsReadyUpTo: the same, restricted to entries before (a, b) in iteration order.
+//@ pred HostsReadyUpTo(eps []discovery.EndpointSlice, n string, a int, b int) := exists i int, j int ::
+//@     0 <= i && i < len(eps) && 0 <= j && j < len(eps[i].Endpoints) && (i < a || (i == a && j < b))
+//@     && epslices.Serv(eps[i].Endpoints[j].Conditions)
+//@     && eps[i].Endpoints[j].NodeName != nil && *eps[i].Endpoints[j].NodeName == n
+
+//@ func nodesWithEndpoint
+//@   ensures forall n string :: (n in result) == old(speakers[n] && HostsReady(eps, n))
+//@   ensures NoDup(result)
+//@   ensures result == nil || fresh(result)
+//@   modifies fresh []string, fresh map[string]bool
+//@   loop 1 invariant usable != nil && fresh(usable)
+//@   loop 1 invariant let a := iter in forall n string :: (n in usable) == old(speakers[n] && HostsReadyUpTo(eps, n, a, 0))
+//@   loop 1 invariant forall n string :: n in usable ==> usable[n]
+//@   loop 2 invariant usable != nil && fresh(usable) && 0 <= idx(1) && idx(1) < len(eps)
+//@   loop 2 invariant let a := idx(1) in let b := iter in forall n string :: (n in usable) == old(speakers[n] && HostsReadyUpTo(eps, n, a, b))
+//@   loop 2 invariant forall n string :: n in usable ==> usable[n]
+//@   loop 3 invariant forall n string :: (n in ret) == (n in visited)
+//@   loop 3 invariant NoDup(ret) && (ret == nil || fresh(ret))
+//@   loop 3 invariant forall n string :: n in visited ==> n in usable
+
+// HashLess: the election order on node names for the address string ip:
+// sha256(a + "#" + ip) < sha256(b + "#" + ip), bytewise.
+//@ ufun HashLess(string, string, string) bool
+//@ axiom hashLessDef: forall a string, b string, ip string :: { HashLess(a, b, ip) } HashLess(a, b, ip) ==
+//@     (bytes.Compare(arrSlice(sha256.Sum256(toBytes(a + "#" + ip))), arrSlice(sha256.Sum256(toBytes(b + "#" + ip)))) < 0)
+// Assumed of sha256 and bytes.Compare: a strict total order on node names (no collisions on node#ip).
+//@ axiom hashIrrefl: forall a string, ip string :: { HashLess(a, a, ip) } !HashLess(a, a, ip)
+//@ axiom hashTrans: forall a string, b string, c string, ip string :: { HashLess(a, b, ip), HashLess(b, c, ip) } HashLess(a, b, ip) && HashLess(b, c, ip) ==> HashLess(a, c, ip)
+//@ axiom hashTotal: forall a string, b string, ip string :: { HashLess(a, b, ip) } a != b ==> HashLess(a, b, ip) || HashLess(b, a, ip)
+
+//@ func (*layer2Controller).ShouldAnnounce$1
+//@   requires 0 <= i && i < len(availableNodes) && 0 <= j && j < len(availableNodes)
+//@   ensures result == HashLess(availableNodes[i], availableNodes[j], ipString)
+
+// Cand: E'(V), the candidate set: eligible nodes, restricted under the Local policy to nodes hosting a ready endpoint.
+//@ opaque pred Cand(c *layer2Controller, pool *config.Pool, svc *v1.Service, eps []discovery.EndpointSlice, nodes map[string]*v1.Node, n string) :=
+//@     Eligible(c, pool, nodes, n) && (svc.Spec.ExternalTrafficPolicy == v1.ServiceExternalTrafficPolicyTypeLocal ==> HostsReady(eps, n))
+// WinnerL2: n announces: the Service is active, n is a candidate and no candidate precedes it in the hash order.
+//@ pred WinnerL2(c *layer2Controller, pool *config.Pool, svc *v1.Service, eps []discovery.EndpointSlice, nodes map[string]*v1.Node, ip string, n string) :=
+//@     Active(eps) && Cand(c, pool, svc, eps, nodes, n) && (forall m string :: Cand(c, pool, svc, eps, nodes, m) ==> !HashLess(m, n, ip))
+
+//@ func (*layer2Controller).ShouldAnnounce
+//@   requires c != nil && PoolWF(pool) && svc != nil && len(toAnnounce) > 0
+//@   ensures [values] result == "" || result == "notOwner"
+//@   ensures [w1] result == "" ==> old(Active(eps))
+//@   ensures [w2] result == "" ==> old(Cand(c, pool, svc, eps, nodes, c.myNode))
+//@   ensures [w3] result == "" ==> old(forall m string :: Cand(c, pool, svc, eps, nodes, m) ==> !HashLess(m, c.myNode, net.ipstr(toAnnounce[0])))
+//@   ensures [lose] result != "" ==> !old(WinnerL2(c, pool, svc, eps, nodes, net.ipstr(toAnnounce[0]), c.myNode))
+//@   ensures [iff] (result == "") == old(WinnerL2(c, pool, svc, eps, nodes, net.ipstr(toAnnounce[0]), c.myNode))
+//@   call sort.Slice with less(a, b) := HashLess(a, b, ipString)
+//@   assert before sort.Slice: [cands] forall n string :: (n in availableNodes) == old(Cand(c, pool, svc, eps, nodes, n))
+//@   assert after sort.Slice: [permMem] forall n string :: (n in availableNodes) == pre(n in availableNodes)
+//@   assert after sort.Slice: [perm] forall n string :: (n in availableNodes) == old(Cand(c, pool, svc, eps, nodes, n))
+//@   assert after sort.Slice: [head] forall k int :: 0 < k && k < len(availableNodes) ==> !HashLess(availableNodes[k], availableNodes[0], ipString)
+//@   assert after sort.Slice: [head2] forall m string :: { HashLess(m, availableNodes[0], ipString) } { m in availableNodes } m in availableNodes ==> !HashLess(m, availableNodes[0], ipString)
+//@   assert after sort.Slice: [mineIn] old(Cand(c, pool, svc, eps, nodes, c.myNode)) ==> old(c.myNode) in availableNodes
+//@   assert after sort.Slice: [beat] let h := availableNodes[0] in (old(Cand(c, pool, svc, eps, nodes, c.myNode)) && h != old(c.myNode)) ==> HashLess(h, old(c.myNode), ipString)
+//@   assert after sort.Slice: [headCand] let h := availableNodes[0] in old(Cand(c, pool, svc, eps, nodes, h))
+//@   modifies fresh map[string]bool, fresh []interface{}, fresh *int, fresh []string, fresh *[]string
+
+// ---- lemmas over the ShouldAnnounce contract (C04, C12). V1/V2 are two views (controller, pool, service, endpoints, nodes). ----
+
+// C04: at most one node announces.
+//@ lemma C04.atMostOne: forall c *layer2Controller, pool *config.Pool, svc *v1.Service, eps []discovery.EndpointSlice, nodes map[string]*v1.Node, ip string, n string, m string ::
+//@     WinnerL2(c, pool, svc, eps, nodes, ip, n) && WinnerL2(c, pool, svc, eps, nodes, ip, m) ==> n == m
+// C04: none announces when no node is eligible or the Service has no ready endpoint; the elected node is eligible.
+//@ lemma C04.winnerEligible: forall c *layer2Controller, pool *config.Pool, svc *v1.Service, eps []discovery.EndpointSlice, nodes map[string]*v1.Node, ip string, n string ::
+//@     WinnerL2(c, pool, svc, eps, nodes, ip, n) ==>
+//@         Active(eps) && HasSpeaker(c, nodes, n) && SelectsL2(pool, n) && !k8snodes.NetUnavail(nodes[n])
+//@         && (c.ignoreExcludeLB || !k8snodes.Excluded(nodes[n]))
+//@         && (svc.Spec.ExternalTrafficPolicy == v1.ServiceExternalTrafficPolicyTypeLocal ==> HostsReady(eps, n))
+// C04: all Services sharing an address (same ip string) with the same candidate set elect the same node.
+//@ lemma C04.sharedAddress: forall c *layer2Controller, pool *config.Pool, nodes map[string]*v1.Node, ip string, n string,
+//@         svc1 *v1.Service, eps1 []discovery.EndpointSlice, svc2 *v1.Service, eps2 []discovery.EndpointSlice ::
+//@     Active(eps1) && Active(eps2) &&
+//@     (forall x string :: Cand(c, pool, svc1, eps1, nodes, x) == Cand(c, pool, svc2, eps2, nodes, x))
+//@     ==> WinnerL2(c, pool, svc1, eps1, nodes, ip, n) == WinnerL2(c, pool, svc2, eps2, nodes, ip, n)
+
+// C12 (a): removing nodes other than the announcer leaves the announcer unchanged.
+//@ lemma C12.removalKeepsWinner: forall ip string, w string,
+//@         c1 *layer2Controller, pool1 *config.Pool, svc1 *v1.Service, eps1 []discovery.EndpointSlice, nodes1 map[string]*v1.Node,
+//@         c2 *layer2Controller, pool2 *config.Pool, svc2 *v1.Service, eps2 []discovery.EndpointSlice, nodes2 map[string]*v1.Node ::
+//@     WinnerL2(c1, pool1, svc1, eps1, nodes1, ip, w) && Active(eps2) && Cand(c2, pool2, svc2, eps2, nodes2, w) &&
+//@     (forall x string :: Cand(c2, pool2, svc2, eps2, nodes2, x) ==> Cand(c1, pool1, svc1, eps1, nodes1, x))
+//@     ==> WinnerL2(c2, pool2, svc2, eps2, nodes2, ip, w)
+// C12 (b): adding nodes leaves the announcer unchanged unless an added node becomes the announcer.
+//@ lemma C12.additionOnlyMovesToAdded: forall ip string, w string, w2 string,
+//@         c1 *layer2Controller, pool1 *config.Pool, svc1 *v1.Service, eps1 []discovery.EndpointSlice, nodes1 map[string]*v1.Node,
+//@         c2 *layer2Controller, pool2 *config.Pool, svc2 *v1.Service, eps2 []discovery.EndpointSlice, nodes2 map[string]*v1.Node ::
+//@     WinnerL2(c1, pool1, svc1, eps1, nodes1, ip, w) && WinnerL2(c2, pool2, svc2, eps2, nodes2, ip, w2) &&
+//@     (forall x string :: Cand(c1, pool1, svc1, eps1, nodes1, x) ==> Cand(c2, pool2, svc2, eps2, nodes2, x))
+//@     ==> w2 == w || !Cand(c1, pool1, svc1, eps1, nodes1, w2)
+// C12 (c): an address never moves between two nodes that were both eligible before and after a change.
+//@ lemma C12.noMoveBetweenSurvivors: forall ip string, w1 string, w2 string,
+//@         c1 *layer2Controller, pool1 *config.Pool, svc1 *v1.Service, eps1 []discovery.EndpointSlice, nodes1 map[string]*v1.Node,
+//@         c2 *layer2Controller, pool2 *config.Pool, svc2 *v1.Service, eps2 []discovery.EndpointSlice, nodes2 map[string]*v1.Node ::
+//@     WinnerL2(c1, pool1, svc1, eps1, nodes1, ip, w1) && WinnerL2(c2, pool2, svc2, eps2, nodes2, ip, w2) &&
+//@     Cand(c1, pool1, svc1, eps1, nodes1, w2) && Cand(c2, pool2, svc2, eps2, nodes2, w1)
+//@     ==> w1 == w2
+// C12 (e): the choice depends only on the candidate node names and the address string.
+//@ lemma C12.dependsOnlyOnCandidatesAndAddress: forall ip string, w string,
+//@         c1 *layer2Controller, pool1 *config.Pool, svc1 *v1.Service, eps1 []discovery.EndpointSlice, nodes1 map[string]*v1.Node,
+//@         c2 *layer2Controller, pool2 *config.Pool, svc2 *v1.Service, eps2 []discovery.EndpointSlice, nodes2 map[string]*v1.Node ::
+//@     Active(eps1) && Active(eps2) &&
+//@     (forall x string :: Cand(c1, pool1, svc1, eps1, nodes1, x) == Cand(c2, pool2, svc2, eps2, nodes2, x))
+//@     ==> WinnerL2(c1, pool1, svc1, eps1, nodes1, ip, w) == WinnerL2(c2, pool2, svc2, eps2, nodes2, ip, w)
